@@ -642,6 +642,7 @@ pub(crate) fn run_c07(replay: Option<&str>) -> Report {
     rep.rule = "explicit-state BFS to FIXPOINT over the real PeerFsm (both roles, 19 inputs each) per configuration (local hold {0,90} × expected AS {set,any} × identifier order {<,=,>}); oracle = reference transition function + one-survivor invariant on every transition; plus OPEN byte encodings through the real parser; non-trivial = distinct canonical FSM state".into();
     let mut replayed = 0u64;
     let mut skipped = 0u64;
+    let mut violating = 0u64;
     for m in &models {
         let cfg = BfsCfg { max_depth: 40, max_secs: 600, collect: true, ..Default::default() };
         let st = bfs::bfs(m, &cfg, &mut rep);
@@ -652,10 +653,19 @@ pub(crate) fn run_c07(replay: Option<&str>) -> Report {
         // bind the model to the I/O driver: the shortest history to every reachable state,
         // replayed with real session tasks for both roles
         for h in &st.histories {
+            if violating >= 12 {
+                // every violating replay waits for time-outs; the verdict is already "violated"
+                rep.exhaustive = false;
+                rep.caps_hit.push("c07-driver-conformance: stopped after 12 violating histories".into());
+                break;
+            }
             match c07_driver_replay(m, h) {
                 Ok(None) => skipped += 1,
                 Ok(Some(vs)) => {
                     replayed += 1;
+                    if !vs.is_empty() {
+                        violating += 1;
+                    }
                     for (sig, what) in vs {
                         rep.violation(Violation { sig, what, case: format!("driver#{}", bfs::encode_case(m, h)) });
                     }
@@ -986,12 +996,49 @@ fn c08_models() -> Vec<TimeModel> {
 /// loopback (the only hold values that make this affordable: negotiated 0 and 3).  These
 /// runs bind the model to the driver; they do not decide the property.
 fn c08_conformance(rep: &mut Report, full: bool) {
+    // Real time is the one source of nondeterminism this part cannot own: a verdict is
+    // accepted only from a run during which the machine honoured its timers (max overshoot
+    // of a 20 ms sleep below 300 ms, measured alongside); a noisy run is repeated, and if
+    // the machine stays noisy the part reports that it could not bind, never a violation.
+    for attempt in 0..3 {
+        let mut r = Report::new("C08", "hd-c08");
+        let jitter_ms = c08_conformance_once(&mut r, full);
+        let clean = r.violations.is_empty() && r.machinery_error.is_none();
+        if clean || jitter_ms < 300 {
+            rep.traces_validated += r.traces_validated;
+            rep.notes.extend(r.notes);
+            rep.notes.push(format!("c08-conformance: attempt {attempt}, max timer overshoot during the run {jitter_ms} ms"));
+            for (_, (v, _)) in r.violations {
+                rep.violation(v);
+            }
+            if r.machinery_error.is_some() {
+                rep.machinery_error = r.machinery_error;
+            }
+            return;
+        }
+        rep.notes.push(format!("c08-conformance: attempt {attempt} discarded, machine too loaded for a real-time verdict (max timer overshoot {jitter_ms} ms)"));
+    }
+    rep.notes.push("c08-conformance: NOT BOUND in this run (real-time replay impossible under the present load); the virtual-time exploration above is unaffected".into());
+}
+
+fn c08_conformance_once(rep: &mut Report, full: bool) -> u64 {
     use crate::event::verif_event::common::*;
     use std::net::{IpAddr, Ipv4Addr};
     use std::time::{Duration, Instant};
     let rt = runtime();
     let pairs: Vec<(u64, u16)> = if full { vec![(0, 90), (90, 0), (0, 0), (3, 3), (3, 90), (90, 3)] } else { vec![(0, 90), (90, 0), (3, 3)] };
+    let jitter = std::sync::Arc::new(std::sync::atomic::AtomicU64::new(0));
+    let stop = std::sync::Arc::new(std::sync::atomic::AtomicBool::new(false));
+    let (j2, s2) = (jitter.clone(), stop.clone());
     let results: Vec<(u64, u16, Result<String, String>)> = rt.block_on(async {
+        let mon = tokio::spawn(async move {
+            while !s2.load(std::sync::atomic::Ordering::Relaxed) {
+                let t = Instant::now();
+                tokio::time::sleep(Duration::from_millis(20)).await;
+                let over = t.elapsed().as_millis().saturating_sub(20) as u64;
+                j2.fetch_max(over, std::sync::atomic::Ordering::Relaxed);
+            }
+        });
         let mut handles = Vec::new();
         for (i, (local, remote)) in pairs.iter().copied().enumerate() {
             handles.push(tokio::spawn(async move {
@@ -1072,6 +1119,8 @@ fn c08_conformance(rep: &mut Report, full: bool) {
         for (h, (l, r)) in handles.into_iter().zip(pairs.iter().copied()) {
             out.push((l, r, h.await.unwrap_or_else(|e| Err(format!("task: {e}")))));
         }
+        stop.store(true, std::sync::atomic::Ordering::Relaxed);
+        let _ = mon.await;
         out
     });
     for (l, r, res) in results {
@@ -1087,6 +1136,7 @@ fn c08_conformance(rep: &mut Report, full: bool) {
             Err(e) => rep.machinery_error = Some(format!("c08 conformance ({l},{r}): {e}")),
         }
     }
+    jitter.load(std::sync::atomic::Ordering::Relaxed)
 }
 
 pub(crate) fn run_c08(replay: Option<&str>) -> Report {
